@@ -158,6 +158,10 @@ func (i *interpreter) ensureInit(pkg *ssa.Package) {
 		i.initDepth--
 		if r := recover(); r != nil {
 			if pe, ok := r.(pathEnd); ok && pe.kind == oUnsupported {
+				if strings.Contains(pkg.Pkg.Path(), "stargz-snapshotter") {
+					// a half-initialised package of the code under test would silently change its behaviour
+					panic(pathEnd{oUnsupported, "package initialiser of " + pkg.Pkg.Path() + " is not executable: " + pe.msg})
+				}
 				i.caveats["partial package init: "+pkg.Pkg.Path()+": "+pe.msg] = true
 				return
 			}
